@@ -651,9 +651,18 @@ func c15NodesFile(k int) (viol string) {
 
 // ---- replay -------------------------------------------------------------------------------------
 
+// race-directed stage (schedule explorer), present only in overlay builds (build tag verife2)
+var c15SyncReplay func(t *testing.T, c explore.Case) explore.Result
+
 func init() {
 	runners["C15"] = func(t *testing.T, c explore.Case) (r explore.Result) {
 		arg := func(i int) int { v, _ := strconv.Atoi(c.H[i]); return v }
+		if strings.HasPrefix(c.Unit, "sync;") {
+			if c15SyncReplay == nil {
+				return explore.Result{Viol: "HARNESS: race-directed stage not built"}
+			}
+			return c15SyncReplay(t, c)
+		}
 		switch c.Unit {
 		case "msg":
 			genMsgs(func(desc string, m krpc.Msg) {
